@@ -125,6 +125,8 @@ func (e leafErr) Error() string { return fmt.Sprintf("leaf %d cannot be marshall
 
 func (l failLeaf) MarshalBinary() ([]byte, error) { return nil, leafErr{l.idx} }
 
+var hashers = map[int]*merkle.Hasher{}
+
 type treeCase struct {
 	Hash   int   `json:"hash"` // index into hashes
 	Leaves []h.B `json:"leaves"`
@@ -147,7 +149,11 @@ func checkTree(c treeCase) (h.Info, error) {
 	case !pow2 && n >= 3:
 		info = h.Info{Class: fmt.Sprintf("unbalanced/odd=%d", n&1), NT: true}
 	}
-	hasher := merkle.NewHasher(hf)
+	hasher := hashers[c.Hash] // reused from case to case
+	if hasher == nil {
+		hasher = merkle.NewHasher(hf)
+		hashers[c.Hash] = hasher
+	}
 	if hasher.Size() != hf.Size() {
 		return info, fmt.Errorf("Size() = %d", hasher.Size())
 	}
@@ -217,6 +223,14 @@ func checkTree(c treeCase) (h.Info, error) {
 			return info, fmt.Errorf("Hash(nil) = %x, %v", g2, err)
 		}
 	}
+	// no state between calls: overwrite the returned root and hash the same leaves again
+	for i := range got {
+		got[i] ^= 0xff
+	}
+	if again, err := hasher.Hash(data); err != nil || !bytes.Equal(again, want) {
+		return info, fmt.Errorf("second Hash of the same %d leaves = %x, %v after the first root was overwritten; want %x", n, again, err, want)
+	}
+	got = append([]byte{}, want...)
 	g2, err := hasher.Hash(alt)
 	if err != nil || !bytes.Equal(g2, got) {
 		return info, fmt.Errorf("same marshalled content through another leaf type gives %x, %v (want %x)", g2, err, got)
